@@ -1566,7 +1566,8 @@ impl Melda {
             });
             let mut c_r: std::sync::MutexGuard<'_, HashMap<String, Map<String, Value>>> =
                 c.lock().unwrap();
-            let root = c_r.get(start).expect("root_object_not_found");
+            // The root exists but may be deleted (e.g. a document with another root was submitted)
+            let root = c_r.get(start).ok_or_else(|| anyhow!("no_root"))?;
             let root = Value::from(root.clone());
             let result = unflatten(&mut c_r, &root)
                 .unwrap()
